@@ -479,6 +479,26 @@ def crosscheck_bounded(run, qual, keys):
         'run-time)' % qual))
 
 
+def load_bounded(run):
+    try:
+        rc, out, err = run_native([os.path.join(
+            VERIF, 'checks', 'load_native.py')], run.repo, timeout=600)
+        r = json.loads(out)
+    except Exception as ex:      # noqa
+        run.broken.append('load stand-in failed to run: %r' % (ex,))
+        return
+    run.bounded.append(Bounded(
+        'load-conformance-end-to-end', '8 class models (plain, nested, list / '
+        'dict / union / optional attributes, permissive custom '
+        '_yatiml_recognize, savorize that rewrites an attribute, '
+        'inheritance, string-like and enum attributes) x documents built '
+        'from 14 scalar spellings per attribute; %d of the loads returned'
+        % r.get('returned', 0), r['evaluations'], r['failures'],
+        'whatever the real load function returns conforms to the declared '
+        'type by a deep conformance check written independently (bool is not '
+        'an int; element-wise; constructor parameters recursively)'))
+
+
 def dump_bounded(run):
     try:
         rc, out, err = run_native([os.path.join(
